@@ -108,4 +108,38 @@ ReshapeFails(x, newshape, r, p) ==
   \cup F(MagBag(Elem(r)) = MagBag(Elem(x)), p \o ".magnitudes")
   \cup F(r.charge = x.charge, p \o ".charge")
 
+---------------------------------------------------------------------------
+\* C07, routine level: what executing the plan returned by the axis-matching routine does to a SHAPE.
+\* An axis is [d |-> size, sub |-> <<>> or the sizes it was fused from].  The plan is applied exactly as
+\* AbelianArray.reshape does: unfuse (one by one), fuse (grouping by grouping), expand (one by one).
+Ax(d) == [d |-> d, sub |-> <<>>]
+PUnfuse(axes, k) == SubSeq(axes, 1, k - 1) \o [i \in 1..Len(axes[k].sub) |-> Ax(axes[k].sub[i])] \o SubSeq(axes, k + 1, Len(axes))
+RECURSIVE PUnfuseAll(_, _)
+PUnfuseAll(axes, ks) == IF ks = <<>> THEN axes ELSE PUnfuseAll(PUnfuse(axes, Head(ks) + 1), Tail(ks))
+\* one fuse call with several groups (0-based axes): groups go to the position of the smallest grouped axis
+PFuse(axes, groups0) ==
+  LET groups == [g \in 1..Len(groups0) |-> [i \in 1..Len(groups0[g]) |-> groups0[g][i] + 1]]
+      flat == FlattenSeq(groups)
+      pos == Min(SeqRange(flat))
+      before == SelectSeq([i \in 1..Len(axes) |-> i], LAMBDA i : i < pos /\ i \notin SeqRange(flat))
+      after == SelectSeq([i \in 1..Len(axes) |-> i], LAMBDA i : i >= pos /\ i \notin SeqRange(flat))
+      fusedax(g) == IF Len(groups[g]) = 1 THEN axes[groups[g][1]]
+                    ELSE [d |-> ProdSeq([i \in 1..Len(groups[g]) |-> axes[groups[g][i]].d]),
+                          sub |-> [i \in 1..Len(groups[g]) |-> axes[groups[g][i]].d]]
+  IN [i \in 1..Len(before) |-> axes[before[i]]] \o [g \in 1..Len(groups) |-> fusedax(g)] \o [i \in 1..Len(after) |-> axes[after[i]]]
+RECURSIVE PFuseAll(_, _)
+PFuseAll(axes, gs) == IF gs = <<>> THEN axes ELSE PFuseAll(PFuse(axes, Head(gs)), Tail(gs))
+RECURSIVE PExpandAll(_, _)
+PExpandAll(axes, ks) ==
+  IF ks = <<>> THEN axes
+  ELSE PExpandAll(SubSeq(axes, 1, Head(ks)) \o <<Ax(1)>> \o SubSeq(axes, Head(ks) + 1, Len(axes)), Tail(ks))
+ApplyPlan(shape, subsizes, plan) ==
+  LET axes0 == [i \in 1..Len(shape) |-> [d |-> shape[i], sub |-> subsizes[i]]]
+  IN PExpandAll(PFuseAll(PUnfuseAll(axes0, plan.unfuse), plan.fuse), plan.expand)
+PlanWellFormed(shape, subsizes, plan) ==
+  \* every step refers to existing axes, unfuses only fused axes, groups are disjoint
+  /\ \A i \in 1..Len(plan.unfuse) : LET a == PUnfuseAll([j \in 1..Len(shape) |-> [d |-> shape[j], sub |-> subsizes[j]]], SubSeq(plan.unfuse, 1, i - 1))
+                                      IN plan.unfuse[i] + 1 \in 1..Len(a) /\ a[plan.unfuse[i] + 1].sub # <<>>
+ShapeOfAxes(axes) == [i \in 1..Len(axes) |-> axes[i].d]
+
 =============================================================================
